@@ -22,8 +22,8 @@ def run(tier, seed):
         "termination not proved",
     ]
     run_proofs(rep, MODS, KEYS)
-    from cbc import c24
-    c24.bounded(rep, tier, seed)
+    from vlib.core import run_bounded
+    run_bounded(rep, "cbc.c24", tier, seed, timeout_s=180 if tier == "quick" else 900)
     attach_bounded_witness(rep)
     return rep
 
